@@ -193,10 +193,24 @@ def run_tree(asm, acc, seed, idx, ncli):
             if not ref.ok:
                 acc['ctr']['flat_refused'] += 1
                 continue
-            runs = [('api', c) for c in ('rootdir', 'slash', 'empty', 'decoy')] + [('api-rel', 'rootdir'), ('api-rel', 'ancestor')]
+            runs = [('api', c) for c in ('rootdir', 'slash', 'empty', 'decoy', 'removed')] + [('api-rel', 'rootdir'), ('api-rel', 'ancestor')]
             for via, cw in runs:
                 acc['n'] += 1
-                os.chdir(cwds[cw])
+                if cw == 'removed':
+                    # a working directory that no longer exists (the shell's directory was cleaned up under it): every path the
+                    # program needs is absolute, and the flattened text assembles from here just the same (checked first)
+                    gone = tempfile.mkdtemp(prefix='gone', dir=root)
+                    os.chdir(gone)
+                    os.rmdir(gone)
+                    flatp = os.path.join(root, 'flat-%d.asm' % compress)
+                    with open(flatp, 'w', encoding='utf-8') as f:
+                        f.write(flat_src)
+                    if not monitors.observe(asm, flatp, compress, tap=False).ok:
+                        os.chdir(old)
+                        acc['ctr']['flat_refused_in_removed_cwd'] += 1
+                        continue
+                else:
+                    os.chdir(cwds[cw])
                 path = t.main if via == 'api' else os.path.relpath(t.main, cwds[cw])
                 o = monitors.observe(asm, path, compress, include_dirs=list(t.incdirs), tap=False)
                 os.chdir(old)
